@@ -118,8 +118,22 @@ fn gen(t: &mut Tape, _tier: Tier) -> Scenario {
     sc.set_i("must_reject", must_reject as u64);
     opts.store(&mut sc);
     raw.store(&mut sc);
-    sc.set_i("rk", [RK_SIM, RK_SLICE, RK_CURSOR, RK_BUFREADER][t.below(4) as usize]);
-    sc.set_i("bufcap", t.range(1, 200));
+    let mut rk = [RK_SIM, RK_SLICE, RK_CURSOR, RK_BUFREADER, RK_CHAIN, RK_TAKE][t.below(6) as usize];
+    if chained && rk >= RK_CHAIN {
+        rk = RK_SIM;
+    }
+    if must_reject && rk == RK_TAKE {
+        rk = RK_CHAIN; // a Take would hide the trailing bytes
+    }
+    sc.set_i("rk", rk);
+    sc.set_i(
+        "bufcap",
+        match rk {
+            RK_TAKE => payload_len as u64, // the decoder may see exactly the payload
+            RK_CHAIN => t.below(payload_len as u64 + 2),
+            _ => t.range(1, 200),
+        },
+    );
     sc.set_l("src_script", gen::draw_script(t));
     sc
 }
@@ -136,6 +150,8 @@ fn exec(sc: &Scenario, ctx: &mut Ctx) -> Vec<Violation> {
         RK_SLICE => ctx.stats.hit("arm.reader_slice"),
         RK_CURSOR => ctx.stats.hit("arm.reader_cursor"),
         RK_BUFREADER => ctx.stats.hit("arm.reader_std_bufreader_over_short_reads"),
+        RK_CHAIN => ctx.stats.hit("arm.reader_std_chain_of_two_slices"),
+        RK_TAKE => ctx.stats.hit("arm.reader_std_take_limited_to_the_payload"),
         _ => ctx.stats.hit("arm.reader_simsource"),
     }
     if sc.i("chained") == 1 {
